@@ -36,7 +36,7 @@ Theorem C08_macro_expansion_same_depth : forall n d head p rest cur env st mac,
   macro_of st (VList (VSym head p :: rest) cur) env = Some mac ->
   eval (S n) d (VList (VSym head p :: rest) cur) env st =
   prop (macroexpand (eval n) (call_builtin n (eval n)) n d (VList (VSym head p :: rest) cur) env st)
-       (fun ast' st' => eval_step (eval n) (call_builtin n (eval n)) n d ast' env st').
+       (fun ast' st' => eval_step (eval n) (eval n) (call_builtin n (eval n)) n d ast' env st').
 Proof. exact eval_macro_call. Qed.
 
 (** Computed instances on the generated headers (tests, not the unbounded claim): the depth
